@@ -92,6 +92,12 @@ struct packet {
 };
 
 // ------------------------------------------------------------------ decoding
+// Received strings: MQTT calls ill-formed UTF-8 in a received packet a Malformed Packet [MQTT-1.5.4-1], but a client
+// that does not validate incoming text is not what C19 is about (structure, bounds, recognised frames).  When judging
+// BROKER bytes the framework therefore checks structure only (strict_strings = false); packets WRITTEN by the client
+// (C17) are always checked strictly.
+inline bool strict_strings = true;
+
 struct rd {
     const unsigned char* p; const unsigned char* e; bool fail = false;
     size_t left() const { return size_t(e - p); }
@@ -115,6 +121,7 @@ struct rd {
 // strict UTF-8 per MQTT 1.5.4: well-formed, no U+0000, no surrogates; (control / non-characters are
 // "SHOULD NOT" for senders; the reference flags them separately)
 inline bool utf8_wellformed(const std::string& s, bool* has_ctrl_or_nonchar = nullptr) {
+    if (!strict_strings) return true;
     size_t i = 0, n = s.size();
     if (has_ctrl_or_nonchar) *has_ctrl_or_nonchar = false;
     while (i < n) {
